@@ -15,7 +15,8 @@
   `Option.none` = panic (failed `assert!`, explicit `panic!`, slice index out of bounds, arithmetic overflow
   under overflow checks).  `usize` values are `Nat` (every place where the code subtracts or multiplies is guarded
   explicitly), the `i64` computation of `pad_len` is on `Int` with checked operations.
-  The const generics `DIGESTLEN`, `DSLEN` are ordinary leading arguments.
+  The const generics `DIGESTLEN`, `DSLEN` are ordinary leading arguments.  The lane array `s : [u64; 25]` of
+  `keccak_f` is an `Array UInt64` (checked `aidx`/`aupd`), byte buffers are `Bytes = List UInt8`.
   The tables RC / ROTC / PIL / M5 / B / NROUNDS are the extracted ones.
 -/
 import CxVerif.Util.Bytes
@@ -32,58 +33,65 @@ def idx {α : Type} (a : List α) (i : Nat) : Option α := a[i]?
 def upd {α : Type} (a : List α) (i : Nat) (v : α) : Option (List α) :=
   if i < a.length then some (a.set i v) else none
 
+/-- `a[i]` / `a[i] = v` on the lane array `s : [u64; 25]` (an `Array`, so that the compiled model updates in place) -/
+def aidx {α : Type} (a : Array α) (i : Nat) : Option α := a[i]?
+def aupd {α : Type} (a : Array α) (i : Nat) (v : α) : Option (Array α) :=
+  if h : i < a.size then some (a.set i v) else none
+
 /-! ## keccak_f (Keccak-compact64 organisation)
 
   The Rust locals `c : [u64;5]` and `t : [u64;1]` live across the phases, but every phase writes each entry it
   reads before reading it, so they are modelled as locals of the phase. -/
 
 /-- `// Theta` -/
-def theta (s : List UInt64) : Option (List UInt64) := do
+def theta (s : Array UInt64) : Option (Array UInt64) := do
   -- for x in 0..5 { c[x] = s[x] ^ s[5 + x] ^ s[10 + x] ^ s[15 + x] ^ s[20 + x]; }
   let c ← (List.range 5).foldlM (fun c x => do
-      upd c x ((← idx s x) ^^^ (← idx s (5 + x)) ^^^ (← idx s (10 + x)) ^^^ (← idx s (15 + x)) ^^^ (← idx s (20 + x))))
+      upd c x ((← aidx s x) ^^^ (← aidx s (5 + x)) ^^^ (← aidx s (10 + x)) ^^^ (← aidx s (15 + x)) ^^^ (← aidx s (20 + x))))
     [0, 0, 0, 0, 0]
   -- for x in 0..5 { t[0] = c[M5[x + 4]] ^ c[M5[x + 1]].rotate_left(1); for y in 0..5 { s[y * 5 + x] ^= t[0]; } }
   (List.range 5).foldlM (fun s x => do
       let t := (← idx c (← idx M5 (x + 4))) ^^^ rotl64 (← idx c (← idx M5 (x + 1))) 1
-      (List.range 5).foldlM (fun s y => do upd s (y * 5 + x) ((← idx s (y * 5 + x)) ^^^ t)) s) s
+      (List.range 5).foldlM (fun s y => do aupd s (y * 5 + x) ((← aidx s (y * 5 + x)) ^^^ t)) s) s
 
 /-- `// Rho Pi`: t[0] = s[1]; for x in 0..24 { c[0] = s[PIL[x]]; s[PIL[x]] = t[0].rotate_left(ROTC[x]); t[0] = c[0]; } -/
-def rho_pi (s : List UInt64) : Option (List UInt64) := do
-  let t ← idx s 1
-  let r ← (List.range 24).foldlM (fun (st : List UInt64 × UInt64) x => do
-      let p ← idx PIL x
-      let c0 ← idx st.1 p
-      let s' ← upd st.1 p (rotl64 st.2 (← idx ROTC x))
-      pure (s', c0)) (s, t)
+def rho_pi (s : Array UInt64) : Option (Array UInt64) := do
+  let t ← aidx s 1
+  let r ← (List.range 24).foldlM (fun (st : Array UInt64 × UInt64) x =>
+      match st with
+      | (s, t) => do
+        let p ← idx PIL x
+        let c0 ← aidx s p
+        let s' ← aupd s p (rotl64 t (← idx ROTC x))
+        pure (s', c0)) (s, t)
   pure r.1
 
 /-- `// Chi` -/
-def chi (s : List UInt64) : Option (List UInt64) :=
+def chi (s : Array UInt64) : Option (Array UInt64) :=
   (List.range 5).foldlM (fun s y => do
       -- for x in 0..5 { c[x] = s[y * 5 + x]; }
-      let c ← (List.range 5).foldlM (fun c x => do upd c x (← idx s (y * 5 + x))) [0, 0, 0, 0, 0]
+      let c ← (List.range 5).foldlM (fun c x => do upd c x (← aidx s (y * 5 + x))) [0, 0, 0, 0, 0]
       -- for x in 0..5 { s[y * 5 + x] = c[x] ^ (!c[M5[x + 1]] & c[M5[x + 2]]); }
       (List.range 5).foldlM (fun s x => do
-          upd s (y * 5 + x) ((← idx c x) ^^^ ((~~~ (← idx c (← idx M5 (x + 1)))) &&& (← idx c (← idx M5 (x + 2)))))) s) s
+          aupd s (y * 5 + x) ((← idx c x) ^^^ ((~~~ (← idx c (← idx M5 (x + 1)))) &&& (← idx c (← idx M5 (x + 2)))))) s) s
 
 /-- `// Iota`: s[0] ^= RC[round] -/
-def iota (round : Nat) (s : List UInt64) : Option (List UInt64) := do
-  upd s 0 ((← idx s 0) ^^^ (← idx RC round))
+def iota (round : Nat) (s : Array UInt64) : Option (Array UInt64) := do
+  aupd s 0 ((← aidx s 0) ^^^ (← idx RC round))
 
 /-- body of `for round in 0..NROUNDS` -/
-def round (s : List UInt64) (rnd : Nat) : Option (List UInt64) := do
+def round (s : Array UInt64) (rnd : Nat) : Option (Array UInt64) := do
   iota rnd (← chi (← rho_pi (← theta s)))
 
-def keccak_f_lanes (s : List UInt64) : Option (List UInt64) := (List.range NROUNDS).foldlM round s
+def keccak_f_lanes (s : Array UInt64) : Option (Array UInt64) := (List.range NROUNDS).foldlM round s
 
 /-- cryptoutil::read_u64v_le(dst, input): `assert!(dst.len() * 8 == input.len())`, then little-endian words -/
-def read_u64v_le (n : Nat) (input : Bytes) : Option (List UInt64) :=
-  if n * 8 = input.length then some ((List.range n).map fun i => leU64 ((input.drop (8 * i)).take 8)) else none
+def read_u64v_le (n : Nat) (input : Bytes) : Option (Array UInt64) :=
+  if n * 8 = input.length then some ((List.range n).map fun i => leU64 ((input.drop (8 * i)).take 8)).toArray else none
 
 /-- cryptoutil::write_u64v_le(dst, input): `assert!(dst.len() == 8 * input.len())` -/
-def write_u64v_le (dstLen : Nat) (input : List UInt64) : Option Bytes :=
-  if dstLen = 8 * input.length then some (input.flatMap u64le) else none
+def write_u64v_le (dstLen : Nat) (input : Array UInt64) : Option Bytes :=
+  if dstLen = 8 * input.size then some (input.toList.flatMap u64le) else none
 
 /-- `fn keccak_f(state: &mut [u8; B])` -/
 def keccak_f (state : Bytes) : Option Bytes := do
@@ -107,15 +115,18 @@ def Engine.new : Engine := { state := zeros B, can_absorb := true, can_squeeze :
 
 /-! ### machine integers used by `pad_len` -/
 
-def i64chk (v : Int) : Option Int := if -(2 ^ 63 : Int) ≤ v ∧ v < (2 ^ 63 : Int) then some v else none
-def usizechk (v : Nat) : Option Nat := if v < 2 ^ 64 then some v else none
+-- 2^63 = 9223372036854775808, 2^64 = 18446744073709551616 (written as literals: `(2^63 : Int)` does not reduce well)
+def i64chk (v : Int) : Option Int := if -9223372036854775808 ≤ v ∧ v < 9223372036854775808 then some v else none
+def usizechk (v : Nat) : Option Nat := if v < 18446744073709551616 then some v else none
 /-- `x as i64` for a `usize` x (two's-complement reinterpretation, never panics) -/
-def usize_as_i64 (x : Nat) : Int := if x % 2 ^ 64 < 2 ^ 63 then (x % 2 ^ 64 : Nat) else ((x % 2 ^ 64 : Nat) : Int) - (2 ^ 64 : Int)
+def usize_as_i64 (x : Nat) : Int :=
+  if x % 18446744073709551616 < 9223372036854775808 then ((x % 18446744073709551616 : Nat) : Int)
+  else ((x % 18446744073709551616 : Nat) : Int) - 18446744073709551616
 /-- `x as usize` for an `i64` x -/
-def i64_as_usize (x : Int) : Nat := (x % (2 ^ 64 : Int)).toNat
+def i64_as_usize (x : Int) : Nat := (x % 18446744073709551616).toNat
 /-- `a % b` on i64: truncated remainder; panics for b = 0 and for MIN % -1 -/
 def i64rem (a b : Int) : Option Int :=
-  if b = 0 ∨ (a = -(2 ^ 63 : Int) ∧ b = -1) then none else some (Int.tmod a b)
+  if b = 0 ∨ (a = -9223372036854775808 ∧ b = -1) then none else some (Int.tmod a b)
 
 /-- `fn set_domain_sep(out_len: usize, buf: &mut [u8])` -/
 def set_domain_sep (out_len : Nat) (buf : Bytes) : Option Bytes := do
@@ -168,13 +179,14 @@ def set_pad (DSLEN : Nat) (buf : Bytes) : Option Bytes := do
   if buflen = 0 then none else
   upd buf (buflen - 1) ((← idx buf (buflen - 1)) ||| 0x80)
 
-/-- `for i in 0..nread { self.state[offset + i] ^= data[in_pos + i]; }` with `data[in_pos..in_pos+nread]` given -/
+/-- `for i in 0..nread { self.state[offset + i] ^= data[in_pos + i]; }` with `data[in_pos..in_pos+nread]` given:
+    the bytes of `data` are XORed onto `state[offset..]`; `none` = an index `offset + i` is out of bounds.
+    (One pass over the list instead of one indexed access per byte — same function, linear time.) -/
 def xor_in : Bytes → Nat → Bytes → Option Bytes
   | st, _, [] => some st
-  | st, off, d :: ds =>
-    match st[off]? with
-    | none => none
-    | some b => xor_in (st.set off (b ^^^ d)) (off + 1) ds
+  | [], _, _ :: _ => none
+  | b :: st, 0, d :: ds => (xor_in st 0 ds).map ((b ^^^ d) :: ·)
+  | b :: st, off + 1, d :: ds => (xor_in st off (d :: ds)).map (b :: ·)
 
 /-- the `while in_pos < in_len` loop of `process`; `data` is `data[in_pos..]`.
     The guard `offset < r` is the `assert!(self.offset < r)` in front of the loop for the first iteration and holds
